@@ -3,6 +3,7 @@
    corresponded against the real restorer on every run). *)
 From Coq Require Import List String ZArith NArith Bool Lia.
 Import ListNotations.
+From DV Require Import Model.Cursor Gen.CursorSrc Proofs.CursorProofs.
 From DV Require Import Model.Tree Model.Tables Model.Restore Proofs.RestoreProofs Gen.RestTbl Gen.RestoreSrc.
 Local Open Scope string_scope.
 Local Open Scope Z_scope.
@@ -74,7 +75,68 @@ Theorem C12_restorer_starts_from_init_state : restorefile_starts_from_init_state
 Proof. vm_compute. reflexivity. Qed.
 
 
+
+(* The four position-assigning functions of decorator/restorer.go are translated on every run into
+   cursor programs (Gen/CursorSrc.v) and proved to compute the hand model Model/Restore.v, for every
+   input: applySpace, applyDecorations, applyLiteral (line offsets of a multi-line raw string), fileSize
+   (the end position covering cursor, comment groups and line offsets).  A statement outside the
+   language is SUnknown and fails the last obligation. *)
+Theorem C12_applySpace_source_computes_the_model :
+  forall s kind id pos sp,
+    let env' := exec_list applySpace_src (space_env s kind id pos sp) in
+    e_rs env' = apply_space s (is_bad_kind kind) (String.eqb pos "After") sp /\ e_stuck env' = false.
+Proof. exact applySpace_source_is_model. Qed.
+
+(* applyDecorations (decorator/restorer.go) is not transcribed by hand only: the translator renders its
+   body into a cursor program (Gen/CursorSrc.v: block-scoped locals, loops over the decorations and over
+   the line breaks inside a comment) and the program is proved to compute Model/Restore.apply_decs for
+   EVERY state, node kind, decoration name, end flag and decoration list (Proofs/CursorProofs.v: the loop
+   body is run symbolically on all 80 shapes of (decoration, end, firstLine, has Comment field, cursor at
+   line start), the loop by induction with the exact environment as invariant) *)
+Theorem C12_applyDecorations_source_computes_the_model :
+  forall s id kind name isend ds,
+    let env' := exec_list applyDecorations_src (decs_env s kind id name isend ds) in
+    e_rs env' = apply_decs s id kind name isend ds /\ e_stuck env' = false.
+Proof. exact applyDecorations_source_is_model. Qed.
+
+Theorem C12_applyLiteral_source_computes_the_model :
+  forall s id text, panic s = None ->
+    e_rs (exec_list applyLiteral_src (lit_env s id text))
+    = rstep s (ALit (f_len text) (if f_raw text then f_nls text else []))
+    /\ e_stuck (exec_list applyLiteral_src (lit_env s id text)) = false.
+Proof.
+  intros s id text Hp. split; [apply applyLiteral_source_is_rstep; exact Hp|].
+  exact (proj2 (applyLiteral_source_is_model s id text)).
+Qed.
+
+Theorem C12_fileSize_source_computes_the_model :
+  forall s id,
+    let env' := exec_list fileSize_src (start_env s id SNone [] [] false [] [] []) in
+    e_ret env' = Some (file_end s - base s)%Z /\ e_rs env' = s /\ e_stuck env' = false.
+Proof. exact fileSize_source_is_model. Qed.
+
+Theorem C12_cursor_sources_are_within_the_language :
+  program_known applySpace_src && program_known applyDecorations_src
+  && program_known applyLiteral_src && program_known fileSize_src = true.
+Proof. vm_compute. reflexivity. Qed.
+
+(* non-vacuity: the translated applyDecorations run on a concrete list (line comment, line break,
+   two-line block comment, a string that is no comment, line comment) at the End of a Field *)
+Example C12_cursor_sources_run :
+  let s0 := mkR 10 25 25 [3%Z; 0%Z] [] [] [] None in
+  let ds := [DLine 5 1; DNl; DBlock 12 [3%Z; 7%Z] 2; DOther 3 9; DLine 4 3] in
+  let e := exec_list applyDecorations_src (decs_env s0 "Field" 7 "End" true ds) in
+  e_stuck e = false /\ cursor (e_rs e) = 53%Z /\ rev (lines (e_rs e)) = [0%Z; 3%Z; 21%Z; 24%Z; 29%Z; 33%Z; 42%Z]
+  /\ List.length (comments (e_rs e)) = 3%nat.
+Proof. vm_compute. repeat split; reflexivity. Qed.
+
 Print Assumptions C12_position_space_coherent.
 Print Assumptions C12_cursor_monotone.
 Print Assumptions C12_files_disjoint.
 Print Assumptions C12_restorer_starts_from_init_state.
+Print Assumptions C12_applySpace_source_computes_the_model.
+Print Assumptions C12_applyDecorations_source_computes_the_model.
+Print Assumptions C12_applyLiteral_source_computes_the_model.
+Print Assumptions C12_fileSize_source_computes_the_model.
+Print Assumptions C12_cursor_sources_are_within_the_language.
+Print Assumptions C12_cursor_sources_run.
